@@ -114,7 +114,12 @@ def run_unit(unit, tier, seed):
         res.errors.append('zero obligations generated')
     try:
         rng = random.Random(seed)
-        res.bounded = unit.bounded(rng, tier)
+        # a unit whose proof part could not be decided gets the deepest bounded search available as a fallback
+        # (still labelled bounded, never counted as proved; the unit stays undecided unless it finds a failure)
+        deep = bool(res.undecided) and tier != 'thorough'
+        res.bounded = unit.bounded(rng, 'thorough' if deep else tier)
+        if deep and isinstance(res.bounded, dict):
+            res.bounded['bound'] = (res.bounded.get('bound') or '') + ' [thorough-tier domain: the proof part was undecided]'
     except Exception as e:
         res.errors.append('bounded stand-in crashed: %s\n%s' % (e, traceback.format_exc()))
     res.wall = time.time() - t0
